@@ -6,6 +6,7 @@
 #include <foonathan/memory/memory_stack.hpp>
 #include <foonathan/memory/new_allocator.hpp>
 #include <foonathan/memory/static_allocator.hpp>
+#include <foonathan/memory/temporary_allocator.hpp>
 #include <foonathan/memory/virtual_memory.hpp>
 
 #include "hist.hpp"
@@ -351,6 +352,103 @@ namespace hist
         using storage_t = fm::static_allocator_storage<4096>;
         storage_t* storage_ = nullptr;
         T*         obj_     = nullptr;
+    };
+
+    // temporary_allocator on an explicit temporary_stack (its blocks come from the default
+    // allocator: not observable upstream, containment is judged by ASan like for the low-level ones)
+    class TempSubj : public ISubject
+    {
+    public:
+        using T      = fm::temporary_allocator;
+        using traits = fm::allocator_traits<T>;
+        explicit TempSubj(Ctx& c)
+        {
+            fam            = F_TEMP;
+            name           = "TMP";
+            has_upstream   = false;
+            has_member     = true;
+            has_composable = false;
+            releasable     = false;
+            movable        = false;
+            owner          = c.new_owner();
+            stack_.reset(new fm::temporary_stack(stack_block_for_class(c.block_class)));
+            alloc_.reset(new T(*stack_));
+            c.block_size = 0;
+        }
+        ~TempSubj() override
+        {
+            destroy_all();
+        }
+        void* alloc(const Req& r) override
+        {
+            if (r.iface == MEMBER)
+                return alloc_->allocate(r.bytes(), r.align);
+            return r.array ? traits::allocate_array(*alloc_, r.count, r.size, r.align) :
+                             traits::allocate_node(*alloc_, r.size, r.align);
+        }
+        void* try_alloc(const Req&) override
+        {
+            return nullptr;
+        }
+        void dealloc(void* p, const Req& r) override
+        {
+            if (r.iface == MEMBER)
+                return;
+            if (r.array)
+                traits::deallocate_array(*alloc_, p, r.count, r.size, r.align);
+            else
+                traits::deallocate_node(*alloc_, p, r.size, r.align);
+        }
+        bool try_dealloc(void*, const Req&) override
+        {
+            return false;
+        }
+        size_t max_node() override
+        {
+            return traits::max_node_size(*alloc_);
+        }
+        size_t max_array() override
+        {
+            return traits::max_array_size(*alloc_);
+        }
+        size_t max_align() override
+        {
+            return traits::max_alignment(*alloc_);
+        }
+        void caps(std::vector<size_t>& out, size_t) override
+        {
+            out.clear();
+        }
+        bool move_construct(bool) override
+        {
+            return false;
+        }
+        bool move_assign(bool, int) override
+        {
+            return false;
+        }
+        bool swap_with_fresh(bool) override
+        {
+            return false;
+        }
+        size_t zombies() override
+        {
+            return 0;
+        }
+        void destroy_zombie(size_t) override {}
+        bool assign_to_zombie(size_t) override
+        {
+            return false;
+        }
+        void destroy_all() override
+        {
+            alloc_.reset();
+            stack_.reset();
+        }
+
+    private:
+        std::unique_ptr<fm::temporary_stack> stack_;
+        std::unique_ptr<T>                   alloc_;
     };
 
     // stateless low-level allocators on the real heap
